@@ -37,6 +37,10 @@ pub enum Entry {
     BuilderDeadline { lines: bool },
     /// TextDiff::configure().timeout(d), indexed schedule
     BuilderTimeout { lines: bool, nanos: u64 },
+    /// both setters on one builder; the one called last must be in force
+    /// (`abs_last`: timeout(d) then deadline(t); otherwise deadline(t') then
+    /// timeout(d))
+    BuilderOverride { abs_last: bool, nanos: u64 },
     /// TextDiff::configure().timeout(d) under the cost-model clock
     CostTimeout { dur: DurKind, seed: u64, profile: u8 },
 }
@@ -192,6 +196,10 @@ pub enum Dl {
     None,
     Abs,
     Rel(Duration),
+    /// deadline(other instant) first, then timeout(d)
+    AbsThenRel(Duration),
+    /// timeout(d) first, then deadline(DL)
+    RelThenAbs(Duration),
 }
 
 /// The text-diff builder entry point on the core of the case.
@@ -213,6 +221,14 @@ pub fn builder_exec(seq: &SeqCase, lines: bool, dl: Dl, sched: Sched) -> Result<
             }
             Dl::Rel(d) => {
                 cfg.timeout(d);
+            }
+            Dl::AbsThenRel(d) => {
+                cfg.deadline(instant_at(DL + 777_777));
+                cfg.timeout(d);
+            }
+            Dl::RelThenAbs(d) => {
+                cfg.timeout(d);
+                cfg.deadline(instant_at(DL));
             }
         }
         if lines {
@@ -472,9 +488,20 @@ impl C07 {
                     }
                 }
             }
-            Entry::BuilderDeadline { lines } | Entry::BuilderTimeout { lines, .. } => {
+            Entry::BuilderDeadline { .. }
+            | Entry::BuilderTimeout { .. }
+            | Entry::BuilderOverride { .. } => {
+                let lines = &match case.entry {
+                    Entry::BuilderDeadline { lines } | Entry::BuilderTimeout { lines, .. } => lines,
+                    _ => false,
+                };
+                // `rel`: the relative timeout is what must be in force
                 let rel = match case.entry {
                     Entry::BuilderTimeout { nanos, .. } => Some(nanos),
+                    Entry::BuilderOverride {
+                        abs_last: false,
+                        nanos,
+                    } => Some(nanos),
                     _ => None,
                 };
                 let core = core_case(seq);
@@ -496,9 +523,18 @@ impl C07 {
                 let kmax = dry.probes;
                 out.gauge("max_probes_per_case", kmax);
                 for k in fault_points(kmax, case.cap, case.sample_seed, case.only_k) {
-                    let dl = match rel {
-                        Some(n) => Dl::Rel(Duration::from_nanos(n)),
-                        None => Dl::Abs,
+                    let dl = match case.entry {
+                        Entry::BuilderOverride { abs_last, nanos } => {
+                            if abs_last {
+                                Dl::RelThenAbs(Duration::from_nanos(nanos))
+                            } else {
+                                Dl::AbsThenRel(Duration::from_nanos(nanos))
+                            }
+                        }
+                        _ => match rel {
+                            Some(n) => Dl::Rel(Duration::from_nanos(n)),
+                            None => Dl::Abs,
+                        },
                     };
                     let run = builder_exec(&core, *lines, dl, Sched::Indexed(k)).map_err(|m| Fail {
                         clause: "c07.panic",
@@ -519,6 +555,9 @@ impl C07 {
                         Some(n) => EPOCH_NS + n,
                         None => DL,
                     };
+                    if matches!(case.entry, Entry::BuilderOverride { .. }) {
+                        out.count("builder_both_setters", 1);
+                    }
                     if rel.is_some() && run.now_plus_calls != 1 {
                         return fail(
                             "c07.builder_plumbing",
@@ -720,7 +759,7 @@ impl Prop for C07 {
             },
         };
         let seq = gen_seq_case(rng, size, None);
-        let entry = match rng.weighted(&[50, 20, 10, 10, 10]) {
+        let entry = match rng.weighted(&[50, 20, 10, 8, 10, 4]) {
             0 => Entry::Raw,
             1 => Entry::Capture,
             2 => Entry::BuilderDeadline {
@@ -728,6 +767,10 @@ impl Prop for C07 {
             },
             3 => Entry::BuilderTimeout {
                 lines: rng.chance(1, 2),
+                nanos: rng.below(10_000_000),
+            },
+            5 => Entry::BuilderOverride {
+                abs_last: rng.chance(1, 2),
                 nanos: rng.below(10_000_000),
             },
             _ => Entry::CostTimeout {
@@ -852,6 +895,7 @@ impl Prop for C07 {
             ("builder_over_100_tokens", agg.hits[24]),
             ("builder_over_100_tokens_with_expiry", c("builder_over_100_tokens_with_expiry")),
             ("timeout_overflow_no_deadline", agg.faults[F_OVERFLOW]),
+            ("builder_both_setters", c("builder_both_setters")),
         ]
     }
 }
